@@ -48,7 +48,7 @@ V8_BASE = ["V8_lower.fn:lemma_*", "V8_lower.fn:FunctionModifier as *", "V8_lower
            "V8_lower.fn:InstrumentationFlag::*", "V8_lower.fn:Instruction::add_instr", "V8_lower.fn:FuncInstrFlag::add_instr", "V8_lower.fn:v_inject_all",
            # which functions the lowering visits at all (rule R23, unit V2)
            "V2_reindex.functions_visited_by_the_lowering.*", "V2_reindex.fn:Module::functions_visited_by_the_lowering"]
-LOWER_GLUE = ["Module::resolve_special_instrumentation: the per-function driver (block stack, which helper runs at which instruction, delete_block / retain_end bookkeeping, resolve_on_end maps) is not under contract, EXCEPT (i) the preparation of entry / exit code before the loop and (ii) WHICH functions the outer loop visits (rule R23, unit V2: every local function of the re-organised container; F30), (iii) ONE ITERATION of the inner loop (rule R19) for ten cases, each a contract on the same extracted text restricted by its `requires`: inside a removed construct; the opener carrying a block-alternate; the matching `end` of a removed construct; an opener with only a block-entry probe; a block / loop with only a block-exit probe; a single-target branch with only a semantic-after probe; an `end` outside any removed construct with bodies pending in either or both tables (the two flush loops are replaced there by calls of the flush regions, verified on their own against the same text: both tables are flushed at this `end` and their entries taken off) - with function-level entry / exit code possibly pending: at the function's last instruction the wrapper block is closed and the exit code follows, spent there; an `else` outside any removed construct with bodies pending for 'the else or the end' of its `if` (flushed here, taken off, the other table untouched; `remove_for_top`, which stands for the closure expression that removes the entry, is ASSUMED to be HashMap::remove for the innermost open construct); an `else` that carries a block-alternate (pending bodies of its `if` are still flushed here, then the else-arm is replaced and removed up to the `end`, which stays); an ordinary (not block-structured) instruction without special request, with function-level code possibly pending: entry code once in front of instruction 0, a copy of the exit code in front of every instruction that leaves the function (the four opener / branch cases are stated for functions without function-level entry / exit code). All other combinations (several special requests on one instruction, special requests on `else` / `end`, br_table, function-level code together with a special request) are NOT decided; the plan tables are seen through two unrelated views (an uninterpreted one where entries are added by the assumed save_* helpers, the std HashMap view where they are removed and flushed): that what was planned is what is flushed is read, not proved",
+LOWER_GLUE = ["Module::resolve_special_instrumentation: the per-function driver (block stack, which helper runs at which instruction, delete_block / retain_end bookkeeping, resolve_on_end maps) is not under contract, EXCEPT (i) the preparation of entry / exit code before the loop and (ii) WHICH functions the outer loop visits (rule R23, unit V2: every local function of the re-organised container; F30), (iii) ONE ITERATION of the inner loop (rule R19) for eleven cases, each a contract on the same extracted text restricted by its `requires`: inside a removed construct; the opener carrying a block-alternate; the matching `end` of a removed construct; an opener with only a block-entry probe; a block / loop with only a block-exit probe; a single-target branch with only a semantic-after probe; an `end` outside any removed construct with bodies pending in either or both tables (the two flush loops are replaced there by calls of the flush regions, verified on their own against the same text: both tables are flushed at this `end` and their entries taken off) - with function-level entry / exit code possibly pending: at the function's last instruction the wrapper block is closed and the exit code follows, spent there; an `else` outside any removed construct with bodies pending for 'the else or the end' of its `if` (flushed here, taken off, the other table untouched; `remove_for_top`, which stands for the closure expression that removes the entry, is ASSUMED to be HashMap::remove for the innermost open construct); an `else` that carries a block-alternate (pending bodies of its `if` are still flushed here, then the else-arm is replaced and removed up to the `end`, which stays); a block / loop / if with ANY combination of block-entry, block-exit and semantic-after requests (each placed resp. registered as if it were alone, all consumed); an ordinary (not block-structured) instruction without special request, with function-level code possibly pending: entry code once in front of instruction 0, a copy of the exit code in front of every instruction that leaves the function (the four opener / branch cases are stated for functions without function-level entry / exit code). All other combinations (several special requests on a branch, special requests on `else` / `end` other than a block-alternate on `else`, br_table, function-level code together with a special request) are NOT decided; the plan tables are seen through two unrelated views (an uninterpreted one where entries are added by the assumed save_* helpers, the std HashMap view where they are removed and flushed): that what was planned is what is flushed is read, not proved",
               "the save_* helpers use HashMap::entry().and_modify(closure): outside Verus (assumed where a contract of C19 / C20 needs them)",
               "the final emission of before / alternate / after lists in encode_internal",
               "'fires once when ...' is an execution-trace property: neither verifier has a WebAssembly semantics; what is proved is WHERE each helper places WHICH code (placement contracts written from the property text)",
@@ -288,14 +288,14 @@ PROPS = {
     "C18": {
         "title": "Block entry probes fire on every entry into the block",
         "units": ["V8_lower", "V2_reindex"],
-        "obligations": V8_BASE + ["V8_lower.lower_block_entry_opener.*", "V8_lower.fn:Module::lower_block_entry_opener", "V8_lower.lower_one_instruction.*", "V8_lower.fn:Module::lower_one_instruction", "V8_lower.fn:InstrumentationFlag::has_instr", "V8_lower.resolve_block_entry.*", "V8_lower.fn:resolve_block_entry"],
+        "obligations": V8_BASE + ["V8_lower.lower_block_entry_opener.*", "V8_lower.fn:Module::lower_block_entry_opener", "V8_lower.lower_opener_with_several_requests.*", "V8_lower.fn:Module::lower_opener_with_several_requests", "V8_lower.lower_one_instruction.*", "V8_lower.fn:Module::lower_one_instruction", "V8_lower.fn:InstrumentationFlag::has_instr", "V8_lower.resolve_block_entry.*", "V8_lower.fn:resolve_block_entry"],
         "glue": LOWER_GLUE, "design_ref": "DESIGN.md §5 C17-C20",
         "level_text": "Placement only: on block / loop / if / else the probe code is appended to the AFTER list of the opening instruction (= first thing inside the body or arm, re-executed on every loop iteration); on any other instruction nothing changes.",
     },
     "C19": {
         "title": "Block exit probes fire when the block or arm falls through",
         "units": ["V8_lower", "V2_reindex"],
-        "obligations": V8_BASE + ["V8_lower.flush_*", "V8_lower.fn:Module::flush_*", "V8_lower.lower_block_exit_opener.*", "V8_lower.fn:Module::lower_block_exit_opener", "V8_lower.lower_end_with_pending_bodies.*", "V8_lower.fn:Module::lower_end_with_pending_bodies", "V8_lower.lower_else_with_pending_bodies.*", "V8_lower.fn:Module::lower_else_with_pending_bodies", "V8_lower.lower_else_block_alt.*", "V8_lower.fn:Module::lower_else_block_alt", "V8_lower.resolve_bodies.*", "V8_lower.fn:resolve_bodies", "V8_lower.plan_resolution_block_exit.*", "V8_lower.fn:plan_resolution_block_exit"],
+        "obligations": V8_BASE + ["V8_lower.flush_*", "V8_lower.fn:Module::flush_*", "V8_lower.lower_block_exit_opener.*", "V8_lower.fn:Module::lower_block_exit_opener", "V8_lower.lower_opener_with_several_requests.*", "V8_lower.fn:Module::lower_opener_with_several_requests", "V8_lower.lower_end_with_pending_bodies.*", "V8_lower.fn:Module::lower_end_with_pending_bodies", "V8_lower.lower_else_with_pending_bodies.*", "V8_lower.fn:Module::lower_else_with_pending_bodies", "V8_lower.lower_else_block_alt.*", "V8_lower.fn:Module::lower_else_block_alt", "V8_lower.resolve_bodies.*", "V8_lower.fn:resolve_bodies", "V8_lower.plan_resolution_block_exit.*", "V8_lower.fn:plan_resolution_block_exit"],
         "glue": LOWER_GLUE + ["ASSUMED: the contracts of save_not_flagged_body_to_resolve{,_inner} (HashMap entry().and_modify(closure).or_insert() chains): they add the body, unflagged, under (block, mode) and touch nothing else"],
         "design_ref": "DESIGN.md §5 C17-C20",
         "level_text": "Placement only. Registration: the probe of an `if` is due at its else-or-end, that of a block / loop / else before the `end` of that very construct (innermost open one), unflagged, nothing for other instructions. Emission: the code saved for a construct's `else`/`end` is emitted into the requested list of that instruction as (flag-guarded chain; unconditional bodies), nothing else changes. The driver that pairs the two (block stack, resolve at Else/End) is glue.",
@@ -303,7 +303,7 @@ PROPS = {
     "C20": {
         "title": "Semantic-after probes fire exactly once after the instruction",
         "units": ["V8_lower", "V2_reindex"],
-        "obligations": V8_BASE + ["V8_lower.flush_*", "V8_lower.fn:Module::flush_*", "V8_lower.lower_semantic_after_branch.*", "V8_lower.fn:Module::lower_semantic_after_branch", "V8_lower.lower_end_with_pending_bodies.*", "V8_lower.fn:Module::lower_end_with_pending_bodies", "V8_lower.create_bool_flag.*", "V8_lower.fn:create_bool_flag", "V8_lower.fn:add_local", "V8_lower.resolve_bodies.*", "V8_lower.fn:resolve_bodies", "V8_lower.plan_resolution_semantic_after.*", "V8_lower.fn:plan_resolution_semantic_after",
+        "obligations": V8_BASE + ["V8_lower.flush_*", "V8_lower.fn:Module::flush_*", "V8_lower.lower_semantic_after_branch.*", "V8_lower.fn:Module::lower_semantic_after_branch", "V8_lower.lower_opener_with_several_requests.*", "V8_lower.fn:Module::lower_opener_with_several_requests", "V8_lower.lower_end_with_pending_bodies.*", "V8_lower.fn:Module::lower_end_with_pending_bodies", "V8_lower.create_bool_flag.*", "V8_lower.fn:create_bool_flag", "V8_lower.fn:add_local", "V8_lower.resolve_bodies.*", "V8_lower.fn:resolve_bodies", "V8_lower.plan_resolution_semantic_after.*", "V8_lower.fn:plan_resolution_semantic_after",
                                    "V8_lower.kf.resolve_bodies.*", "V8_lower.lemma.emitted_chain_is_well_nested_up_to_two_flagged_bodies", "V8_lower.fn:lemma_chain_agrees_up_to_two"],
         "glue": LOWER_GLUE + ["ASSUMED: the contracts of save_{not_,}flagged_body_to_resolve (HashMap entry chains) and of the br_table target loop (a for_each closure, named brtable_save_targets by rule R11): they add the body under (block, mode), flagged with the given local or unflagged, and touch nothing else",
                               "TRUSTED model of wasmparser::BrTable: targets() yields br_targets(t), default() is br_default(t)"],
